@@ -74,13 +74,16 @@ static void build(NifFile& nif, int code) {
 		if (node) { node->childRefs.AddBlockRef(ids[(i + 1 + code) % ids.size()]); if (code & 1) node->childRefs.AddBlockRef(hdr.GetNumBlocks() - 1); }
 	}
 	auto root = nif.GetRootNode(); if (root) root->childRefs.AddBlockRef(ids[0]);
+	// corrupted references (C15): a child reference and a pointer beyond the block table -- every operation must leave them alone
+	if (code & 32) { auto node = hdr.GetBlock<NiNode>(ids[0]); if (node) node->childRefs.AddBlockRef(hdr.GetNumBlocks() + 5); }
+	if (code & 64) { auto sk = hdr.GetBlock<NiSkinInstance>(hdr.GetNumBlocks() - 1); if (sk) sk->boneRefs.AddBlockRef(hdr.GetNumBlocks() + 7); }
 }
 
 static int fail(const char* op, int code, const std::string& arg, const std::string& why) { printf("FAILING HISTORY %s: model %d, %s: %s\n", op, code, arg.c_str(), why.c_str()); return 1; }
 
 int main(int argc, char** argv) {
 	std::string op = argc > 1 ? argv[1] : "all";
-	for (int code = 0; code < 96; code++) {
+	for (int code = 0; code < 128; code++) {
 		if (op == "delete" || op == "all") {
 			NifFile probe; build(probe, code); uint32_t n = probe.GetHeader().GetNumBlocks();
 			for (uint32_t id = 0; id < n; id++) {
